@@ -31,6 +31,7 @@ type gor struct {
 	parked  bool
 	frame   *frame
 	waitOn  []interface{} // objects this goroutine is blocked on
+	selSend []interface{} // channels it waits to SEND on inside a select (subset of waitOn)
 	isMain  bool
 }
 
@@ -348,13 +349,41 @@ func (in *Interp) gSelect(fr *frame, instr *ssa.Select) {
 			result(-1, false, nil)
 			return
 		}
-		var on []interface{}
+		var on, sends []interface{}
 		for _, s := range states {
 			if s.ch != nil {
 				on = append(on, s.ch)
+				if s.send {
+					sends = append(sends, s.ch)
+				} else {
+					// a sender that parked in a select on this channel before
+					// any receiver existed must re-evaluate now that one does
+					in.wakeSelectSenders(s.ch)
+				}
 			}
 		}
+		in.sc.cur.selSend = sends
 		in.park(on...)
+		in.sc.cur.selSend = nil
+	}
+}
+
+// wakeSelectSenders makes runnable the goroutines parked in a select with a
+// send case on ch (an unbuffered send in a select only completes when a
+// receiver is parked on the channel: see hasReceiver).
+func (in *Interp) wakeSelectSenders(ch interface{}) {
+	sc := in.sc
+	for _, g := range sc.all {
+		if g.done || !g.parked || g.waitOn == nil || g == sc.cur {
+			continue
+		}
+		for _, w := range g.selSend {
+			if w == ch {
+				g.waitOn = nil
+				sc.runq = append(sc.runq, g)
+				break
+			}
+		}
 	}
 }
 
@@ -366,9 +395,20 @@ func (in *Interp) hasReceiver(ch *Chan) bool {
 			continue
 		}
 		for _, w := range g.waitOn {
-			if w == ch {
+			if w == ch && !isSelSender(g, ch) {
 				return true
 			}
+		}
+	}
+	return false
+}
+
+// isSelSender: g is parked in a select whose case on ch is a SEND (it waits
+// for a receiver itself and must not be taken for one).
+func isSelSender(g *gor, ch *Chan) bool {
+	for _, w := range g.selSend {
+		if w == interface{}(ch) {
+			return true
 		}
 	}
 	return false
